@@ -7,7 +7,7 @@ open OPM OPM.Wire OPM.Reconnect
 /-- ops:  `cfg <plot 0/1> <recent 0/1>` → which repository variant the code is (measured by the harness); answers `cfg`
           `register` | `disconnect` | `restart`
           `start <run>` | `stop <run>`
-          `tags <run|-> <t>`
+          `tags <run|-> <t> <system state 0/1/2 | ->`
           `restartm`               → mutant restart that forgets to store the recent engine (self-test only)
     answer: `<ok|notreg> <canonical state>` or `bad-op`. -/
 structure St where
@@ -24,9 +24,12 @@ def semi (l : List String) : String := if l.isEmpty then "-" else ";".intercalat
 
 def render (s : State) : String :=
   (match s.mem with
-    | none => "reg=0 run=- lp=- tt=-"
-    | some m => "reg=1 run=" ++ optNat m.run ++ " lp=" ++ optNat m.lastPersisted ++ " tt=" ++ optNat m.tagTime) ++
-  " row=" ++ (match s.recentEngine with | none => "none" | some x => optNat x) ++
+    | none => "reg=0 run=- lp=- tt=- ss=-@-"
+    | some m => "reg=1 run=" ++ optNat m.run ++ " lp=" ++ optNat m.lastPersisted ++ " tt=" ++ optNat m.tagTime ++
+        " ss=" ++ optNat m.sysState ++ "@" ++ optNat m.sysTime) ++
+  " row=" ++ (match s.recentEngine with
+    | none => "none"
+    | some x => optNat x ++ "/" ++ optNat s.recentEngineState) ++
   " logs=" ++ showNatList s.plotLogs ++
   " vals=" ++ semi (s.values.map (fun p => toString p.1 ++ ":" ++ toString p.2)) ++
   " recent=" ++ showNatList s.recentRuns
@@ -53,10 +56,11 @@ def step (st : St) (line : String) : St × String :=
     match r.toNat? with
     | some r => answer st (.stop r)
     | none => (st, "bad-op")
-  | ["tags", r, t] =>
-    match (if r = "-" then some none else r.toNat?.map some), t.toNat? with
-    | some r, some t => answer st (.tags r t)
-    | _, _ => (st, "bad-op")
+  | ["tags", r, t, v] =>
+    match (if r = "-" then some none else r.toNat?.map some), t.toNat?,
+          (if v = "-" then some none else v.toNat?.map some) with
+    | some r, some t, some v => answer st (.tags r t v)
+    | _, _, _ => (st, "bad-op")
   | _ => (st, "bad-op")
 
 end Driver.Reconnect
